@@ -28,6 +28,7 @@ fn run_case(fields: &[&str]) -> String {
         "CHARCLASS" => lexs::charclass_case(fields),
         "TABLES" => tables::tables_case(fields, parses::all_token_types()),
         "PARSE" => parses::parse_case(fields),
+        "PTEXT" => parses::ptext_case(fields),
         "BUILD" => builds::build_case(fields),
         "LIT" => builds::lit_case(fields),
         "SYM" => builds::sym_case(fields),
